@@ -944,6 +944,9 @@ class Ex:
                         return VLib("repo:" + sub.name)
                     self.throw("AttributeError", name)
                 return self.resolved_to_val(r, name)
+            if name == "__version__":
+                # the version text of an installed library is not known to the contracts: a symbolic string
+                return VStr(z3.String(obj.name.replace(".", "_") + "_version"))
             return self.lib.lib_attr(self, obj, name)
         if isinstance(obj, VFunc):
             if name == "__name__":
@@ -1104,6 +1107,10 @@ class Ex:
                 for k, v in cell.items:
                     if self.same_key(k, idx):
                         return v
+                if getattr(cell, "default_factory", None) is not None:      # collections.defaultdict: missing key -> factory()
+                    v = self.call(cell.default_factory, [], {}, fr)
+                    cell.items.append((idx, v))
+                    return v
                 raise PyExc(self.make_exc("KeyError", idx))
             if isinstance(cell, HArr):
                 return self.lib.arr_getitem(self, obj, idx)
